@@ -1,6 +1,10 @@
 extern crate rdp;
 extern crate serde_json;
 extern crate rand;
+extern crate libc;
+extern crate md4;
+extern crate md5;
+extern crate hmac;
 
 mod outcome;
 mod refpeer;
@@ -9,6 +13,10 @@ mod session;
 mod trace;
 mod drv_activation;
 mod drv_transport;
+mod drv_connect;
+mod tlspeer;
+mod nlapeer;
+mod nlafault;
 
 #[global_allocator]
 static GLOBAL: outcome::CountingAlloc = outcome::CountingAlloc;
@@ -24,12 +32,16 @@ fn main() {
         std::process::exit(2);
     }
     outcome::silence_panics();
+    // the test CA is the only trusted root: leaf/leaf2 are trusted, selfsigned/small are not
+    std::env::set_var("SSL_CERT_FILE", tlspeer::ca_path());
+    std::env::remove_var("SSL_CERT_DIR");
     let seed: u64 = arg(&args, "--seed").and_then(|s| s.parse().ok()).unwrap_or(0);
     let plans = arg(&args, "--plans").unwrap_or_default();
     let trace_path = arg(&args, "--trace").unwrap_or_default();
     let blobs = arg(&args, "--blobs").unwrap_or_default();
     let code = match args[1].as_str() {
         "activation" => drv_activation::run(&plans, &trace_path, &blobs, seed),
+        "connect" => drv_connect::run(&plans, &trace_path, &blobs),
         "transport" => drv_transport::run(&args, &plans, &trace_path, &blobs),
         other => { eprintln!("unknown driver {}", other); 2 }
     };
